@@ -54,4 +54,8 @@ func runC17(c *core.Ctx) {
 
 	c.Doc("C17.callbacks", "closers and filters (run under handlersMutex) do not re-enter it and cannot block", 10)
 	ruleCallbacks(c, a, lc, "C17.callbacks")
+
+	// shutdown must not deadlock against a dispatch blocked on the stream (shared with C11)
+	c.Doc("C11.shutdown", "shutdown closes the stream before taking the handler mutex and closes every handler", 4)
+	ruleShutdown(c, a)
 }
